@@ -66,6 +66,8 @@ inductive Label
   | expectCancel (x : Nat)
   | expectTimeout (x : Nat)      -- the deadline fires: the call's future is cancelled (the call returns later)
   | expectCancelReq (x : Nat)    -- the calling task is cancelled: its future is cancelled with it
+  | hSkip (p : Proc) (b : BId) (e : EId) (k : HId)   -- the activation's next handler is not run: its result was made terminal meanwhile
+                                                      -- (cancelled by a timeout cleanup); `execute_handler` refuses it
   deriving Repr, Inhabited
 
 abbrev Checks := List (String × Bool)
@@ -386,6 +388,14 @@ def checks (w : World) : Label → Checks
         | _ => false)]
   | .expectCancelReq x =>
     [("expectCancelReq: task is not blocked in expect()", match w.waiter x with | .expecting .. => true | _ => false)]
+  | .hSkip p b e k =>
+    [("hSkip: executor has no open activation for this (bus, event)", actIs w p b e),
+     ("hSkip: executor is not active (run loop without lock / instance not awaiting)", execActive w p),
+     ("hSkip: handler is not the next one of the activation",
+        match w.act p with | some A => A.todo.head? == some k | none => false),
+     ("hSkip: result of this handler is not terminal (only a handler whose result was completed meanwhile is passed over)",
+        match (w.ev e).getRes? b k with | some r => r.terminal | none => false),
+     ("hSkip: unknown event", e < w.ne)]
 
 /-- the run loop leaves `step()`: back to the loop head (or out of the loop when the bus was stopped meanwhile) -/
 def rlBack (w : World) (b : BId) : World :=
@@ -602,6 +612,10 @@ def apply0 (w : World) : Label → World
      | .expecting b key k _ _ _ =>
        (w.modBus b fun B => { B with handlers := B.handlers.eraseP fun r => r.key == key && r.hid == k }).setWaiter x .idle
      | _ => w)
+  | .hSkip p _ _ _ =>
+    (match w.act p with
+     | some A => w.setAct p (some { A with todo := A.todo.tail })
+     | none => w)
   | .expectTimeout x | .expectCancelReq x =>
     (match w.waiter x with
      | .expecting b key k d none _ => w.setWaiter x (.expecting b key k d none true)
